@@ -174,6 +174,9 @@ func genCase(store string) func(t *rapid.T) Case {
 func wideCase(t *rapid.T, store string) Case {
 	c := Case{Store: store}
 	m := rapid.IntRange(8, 14).Draw(t, "poolSize")
+	if rapid.IntRange(0, 3).Draw(t, "veryWide") == 0 {
+		m = rapid.IntRange(64, 80).Draw(t, "poolSizeXL")
+	}
 	for i := 0; i < m+1; i++ {
 		c.Specs = append(c.Specs, gen.NodeSpec{Kind: gen.KBlob, Seed: 400 + i, Size: 3 + i, MT: "application/octet-stream"})
 	}
@@ -182,6 +185,9 @@ func wideCase(t *rapid.T, store string) Case {
 	var parents []int
 	for i := 0; i < p; i++ {
 		w := rapid.IntRange(7, m).Draw(t, "width")
+		if m >= 64 && rapid.Bool().Draw(t, "fullWidth") {
+			w = m
+		}
 		pool := rapid.Permutation(seq(m)).Draw(t, "layers")[:w]
 		var layers []gen.Ref
 		for _, b := range pool {
